@@ -492,7 +492,9 @@ def decorate_nested(tokens: T.List[Tok], rnd: random.Random, rate: float = 0.3, 
             if depth > 0 and rnd.random() < rate:
                 out.append(S('eol'))
             depth -= 1
-        elif depth > 0 and out and out[-1]['t'] != 'eol' and rnd.random() < anywhere:
+        elif depth > 0 and out and out[-1]['t'] != 'eol' and (
+                rnd.random() < anywhere or (k == 'in' and out[-1]['t'] == 'not' and rnd.random() < 0.5)):
+            # (the gap inside `not in` is stored in the operator token itself by the parser: a sensitive spot)
             out.append(S('eol'))
         out.append(t)
         if k in ('lparen', 'lbracket', 'lcurl'):
